@@ -302,6 +302,10 @@ func FamForeign(seed int64) WireRecord {
 	sendS(915, `{"request":{"call":"s5","function":"EchoInt","args":[915,7]}}`, "request-only envelope after a response-only one")
 	sendNone(916, `{"response":{"call":"nobody2","value":null,"err":"x"}}`, "response-only envelope for an unknown call")
 	sendS(917, `{"request":{"call":"s7","function":"EchoInt","args":[917,0]}}`, "zero result in an envelope")
+	// an envelope that carries neither member is skipped; the stream goes on
+	sendNone(918, `{}`, "envelope with neither request nor response")
+	sendNone(919, `{"request":null,"response":null}`, "envelope with two nulls")
+	sendS(920, `{"request":{"call":"s10","function":"EchoInt","args":[920,8]}}`, "request after empty envelopes")
 	cancel2()
 	in.Close(errors.New("closed"))
 	out.Close(errors.New("closed"))
